@@ -3,7 +3,8 @@
 (* Verdict specification (layer V) for C20.                                *)
 (* kind = "net": routed geometry of one net.  The routing of a wire is a   *)
 (* cursor machine: the first point sets the cursor; a point moves it, a    *)
-(* '*' coordinate (sent as -1) keeps the previous value; a via is placed   *)
+(* '*' coordinate (sent as -1) keeps the previous value (an optional third *)
+(* number, the extension, stays with its point); a via is placed          *)
 (* at the cursor with its orientation (default N); a via array             *)
 (* DO nx BY ny STEP sx sy is placed at all nx x ny positions.  The per     *)
 (* layer wire listing holds, wire by wire, the width and the resolved      *)
@@ -36,8 +37,9 @@ StepEl(s, e) == IF e.v THEN
                                        <<e.name, s[1] + ((i - 1) \div e.do[2]) * e.do[3], s[2] + ((i - 1) % e.do[2]) * e.do[4], "N">>]
                                ELSE << <<e.name, s[1], s[2], IF e.orient = "" THEN "N" ELSE e.orient>> >>
                     IN <<s[1], s[2], s[3], s[4] \o pos>>
-                ELSE LET x == Res(e.x, s[1])  y == Res(e.y, s[2]) IN <<x, y, Append(s[3], <<x, y>>), s[4]>>
-RunWire(w) == FoldLeft(StepEl, <<w.elems[1].x, w.elems[1].y, << <<w.elems[1].x, w.elems[1].y>> >>, <<>>>>, Tail(w.elems))
+                ELSE LET x == Res(e.x, s[1])  y == Res(e.y, s[2]) IN <<x, y, Append(s[3], IF e.ext >= 0 THEN <<x, y, e.ext>> ELSE <<x, y>>), s[4]>>
+First(w) == IF w.elems[1].ext >= 0 THEN <<w.elems[1].x, w.elems[1].y, w.elems[1].ext>> ELSE <<w.elems[1].x, w.elems[1].y>>
+RunWire(w) == FoldLeft(StepEl, <<w.elems[1].x, w.elems[1].y, <<First(w)>>, <<>>>>, Tail(w.elems))
 WirePoints(w) == LET p == RunWire(w)[3] IN IF Len(p) > 1 THEN p ELSE <<>>
 ExpW(layer) == LET ws == SelectSeq(R.wires, LAMBDA w : w.layer = layer /\ Len(WirePoints(w)) > 0) IN
                [i \in 1..Len(ws) |-> <<ws[i].width, WirePoints(ws[i])>>]
